@@ -545,8 +545,9 @@ class DWorld:
                 if self.model.available() != []:
                     # a filter returned nothing although work is left: C07's business
                     self.lib_error("C07", "filter_empty", "available_operations() is empty although operations are ready")
-                # (an emptying user filter: the user falls back to the ready operations)
-                cands = list(self.call_query("raw_ready_operations"))
+                # (an emptying user filter: the user falls back to the ready operations - the next operation of every
+                # unfinished job, taken from the instance they hold)
+                cands = [self.op_of(j, p) for j, p in self.model.ready()]
         else:
             cands = [self.op_of(j, p) for j, p in self.model.ready()]
         op = cands[a % len(cands)]
